@@ -156,6 +156,9 @@ func GenSpec(r *Rand, edits int) (M, []string) {
 	for i := 0; i < edits; i++ {
 		// several edits of the same kind on different targets are what makes order dependence visible
 		kind := r.Intn(nEditKinds)
+		if r.Chance(400) {
+			kind = nEditKinds + r.Intn(nEditKinds2) // the rarer rules of the specification validator
+		}
 		if last >= 0 && r.Chance(450) {
 			kind = last
 		}
@@ -340,9 +343,17 @@ func applyEdit(r *Rand, doc M, kind int) string {
 			paths["/ov/{z}"] = M{"get": M{"operationId": "ovz", "parameters": []any{M{"name": "z", "in": "path", "required": true, "type": "string"}}, "responses": M{"200": M{"description": "ok"}}}}
 		}
 		return "overlap"
-	case 13: // invalid pattern in a parameter
+	case 13: // invalid pattern in a parameter (a new query parameter, or one the operation already has, e.g. its path parameter)
 		if _, _, op := anyOp(); op != nil {
 			ps, _ := op["parameters"].([]any)
+			if r.Chance(400) {
+				for _, q := range ps {
+					if qm, ok := q.(M); ok && qm["type"] == "string" && qm["$ref"] == nil {
+						qm["pattern"] = "("
+						return "bad-pattern-existing"
+					}
+				}
+			}
 			op["parameters"] = append(ps, M{"name": "pat" + fmt.Sprint(r.Intn(3)), "in": "query", "type": "string", "pattern": "("})
 			return "bad-pattern"
 		}
@@ -397,6 +408,170 @@ func applyEdit(r *Rand, doc M, kind int) string {
 		if _, _, op := anyOp(); op != nil {
 			op["bogusKey"+fmt.Sprint(r.Intn(2))] = 1
 			return "meta-schema"
+		}
+	default:
+		return applyEdit2(r, doc, kind-nEditKinds, anyOp, plainDef)
+	}
+	return ""
+}
+
+// applyEdit2: the rarer rules (one offender per call; the caller repeats kinds so that several offenders of one rule
+// meet in one document, which is what makes order-dependent early exits and message texts visible).
+const nEditKinds2 = 19
+
+func applyEdit2(r *Rand, doc M, kind int, anyOp func() (string, string, M), plainDef func() (string, M)) string {
+	paths, _ := doc["paths"].(M)
+	sfx := fmt.Sprint(r.Intn(3))
+	okResp := func() M { return M{"200": M{"description": "ok"}} }
+	addParam := func(p M) bool {
+		_, _, op := anyOp()
+		if op == nil {
+			return false
+		}
+		ps, _ := op["parameters"].([]any)
+		op["parameters"] = append(ps, p)
+		return true
+	}
+	okOf := func() M {
+		_, _, op := anyOp()
+		if op == nil {
+			return nil
+		}
+		resp, _ := op["responses"].(M)
+		ok, _ := resp["200"].(M)
+		return ok
+	}
+	addHeader := func(name string, h M) bool {
+		ok := okOf()
+		if ok == nil {
+			return false
+		}
+		hs, _ := ok["headers"].(M)
+		if hs == nil {
+			hs = M{}
+			ok["headers"] = hs
+		}
+		hs[name] = h
+		return true
+	}
+	switch kind {
+	case 0: // array parameter without items
+		if addParam(M{"name": "arrp" + sfx, "in": "query", "type": "array"}) {
+			return "param-array-no-items"
+		}
+	case 1: // array header without items
+		if addHeader("X-Arr"+sfx, M{"type": "array"}) {
+			return "header-array-no-items"
+		}
+	case 2: // empty path parameter
+		paths["/e"+sfx+"/{}"] = M{"get": M{"operationId": "empty" + sfx, "responses": okResp()}}
+		return "empty-path-param"
+	case 3: // path parameter declared but absent from the path
+		if addParam(M{"name": "ghost" + sfx, "in": "path", "required": true, "type": "string"}) {
+			return "path-param-not-in-path"
+		}
+	case 4: // the same path parameter twice in one path
+		paths["/u"+sfx+"/{id}/v/{id}"] = M{"get": M{"operationId": "uniq" + sfx, "parameters": []any{M{"name": "id", "in": "path", "required": true, "type": "string"}}, "responses": okResp()}}
+		return "path-param-not-unique"
+	case 5: // garbled path parameter (warning)
+		paths["/g"+sfx+"/{a b}"] = M{"get": M{"operationId": "garbled" + sfx, "parameters": []any{M{"name": "a b", "in": "path", "required": true, "type": "string"}}, "responses": okResp()}}
+		return "path-param-garbled"
+	case 6: // operation without any response
+		paths["/nr"+sfx] = M{"get": M{"operationId": "noresp" + sfx, "responses": M{}}}
+		return "no-valid-response"
+	case 7: // no path at all (warning)
+		for _, k := range sortedKeys(paths) {
+			delete(paths, k)
+		}
+		return "no-path"
+	case 8: // validation keywords that do not match the parameter's type (warning)
+		if r.Chance(500) {
+			if addParam(M{"name": "mm" + sfx, "in": "query", "type": "string", "minimum": 1}) {
+				return "param-keyword-mismatch"
+			}
+		} else if addParam(M{"name": "mm" + sfx, "in": "query", "type": "integer", "maxLength": 3}) {
+			return "param-keyword-mismatch"
+		}
+	case 9: // $ref with siblings: a description, a default or an example next to the reference, as a property, an allOf member or a tuple item
+		if n, d := plainDef(); d != nil {
+			defs, _ := doc["definitions"].(M)
+			sib := pick(r, []M{{"description": "sibling"}, {"default": M{}}, {"default": "null"}, {"example": M{"x": 1}}, {"default": M{"id" + n: "bad"}}})
+			ref := M{"$ref": "#/definitions/" + n}
+			for k, v := range sib {
+				ref[k] = v
+			}
+			switch r.Intn(3) {
+			case 0:
+				d["properties"].(M)["sib"+n] = ref
+			case 1:
+				defs["W"+n+sfx] = M{"allOf": []any{ref, M{"type": "object", "properties": M{"w": M{"type": "string"}}}}}
+			default:
+				defs["T"+n+sfx] = M{"type": "array", "items": []any{ref, M{"type": "string"}}}
+			}
+			return "ref-siblings:" + n
+		}
+	case 10: // required parameter with a default (warning)
+		if addParam(M{"name": "rq" + sfx, "in": "query", "type": "string", "required": true, "default": "x"}) {
+			return "required-has-default"
+		}
+	case 11: // examples without schema / for an unsupported media type (warnings)
+		if ok := okOf(); ok != nil {
+			if r.Chance(500) {
+				delete(ok, "schema")
+				ok["examples"] = M{"application/json": M{"n": 1}}
+				return "examples-without-schema"
+			}
+			ok["schema"] = M{"type": "string"}
+			ok["examples"] = M{"text/plain": "x"}
+			return "examples-mime"
+		}
+	case 12: // response header with a bad default, a bad pattern, or items with a bad default
+		h := pick(r, []M{
+			{"type": "integer", "default": "bad" + sfx},
+			{"type": "string", "pattern": "(", "default": "x"},
+			{"type": "array", "items": M{"type": "integer", "default": "bad" + sfx}},
+			{"type": "array", "items": M{"type": "string", "pattern": "("}},
+		})
+		if addHeader("X-Bad"+sfx, h) {
+			return "bad-header"
+		}
+	case 13: // parameter whose items carry a bad default / a bad pattern
+		if r.Chance(500) {
+			if addParam(M{"name": "pi" + sfx, "in": "query", "type": "array", "items": M{"type": "integer", "default": "bad"}}) {
+				return "bad-param-items-default"
+			}
+		} else if addParam(M{"name": "pp" + sfx, "in": "query", "type": "array", "items": M{"type": "string", "pattern": "("}}) {
+			return "bad-param-items-pattern"
+		}
+	case 14: // unresolvable parameter reference
+		if addParam(M{"$ref": "#/parameters/missingP" + sfx}) {
+			return "unresolved-param-ref"
+		}
+	case 15: // unresolvable response reference
+		if _, _, op := anyOp(); op != nil {
+			if resp, ok := op["responses"].(M); ok {
+				resp["404"] = M{"$ref": "#/responses/missingR" + sfx}
+				return "unresolved-response-ref"
+			}
+		}
+	case 16: // invalid pattern in a schema property
+		if n, d := plainDef(); d != nil {
+			d["properties"].(M)["pat"+n] = M{"type": "string", "pattern": "("}
+			return "bad-schema-pattern:" + n
+		}
+	case 17: // parameter with a default its simple schema rejects
+		if addParam(M{"name": "bd" + sfx, "in": "query", "type": "integer", "default": "bad" + sfx}) {
+			return "bad-param-default"
+		}
+	case 18: // a parameter in the shared #/parameters section that is broken (bad default) and used by an operation
+		ps, _ := doc["parameters"].(M)
+		if ps == nil {
+			ps = M{}
+			doc["parameters"] = ps
+		}
+		ps["shared"+sfx] = M{"name": "sh" + sfx, "in": "query", "type": "integer", "default": "bad"}
+		if addParam(M{"$ref": "#/parameters/shared" + sfx}) {
+			return "bad-shared-param"
 		}
 	}
 	return ""
@@ -547,7 +722,7 @@ func jsonToYAML(j []byte) ([]byte, error) {
 
 // specOp draws a whole-specification validation: generated mini spec (mostly) or a small repository fixture.
 func specOp(r *Rand) Op {
-	op := Op{Kind: KSpec, OrderSeed: orderSeedFor(r)}
+	op := Op{Kind: KSpec, OrderSeed: orderSeedFor(r), SharedMeta: true}
 	if ids := FixtureIDs(); len(ids) > 0 && r.Chance(250) {
 		op.Doc = pick(r, ids)
 	} else {
